@@ -19,7 +19,8 @@ import (
 // builds (core.crossBuild) and replays differences in both builds.
 //
 // mode "conf": programs may use quotas (CPU-limit kill as fault); mode "nort":
-// programs never touch the runtime library (for the noquotas build).
+// programs never touch the runtime library (for the noquotas build); mode "snap":
+// see snapStress.
 
 func init() {
 	core.Register(&core.Engine{Name: "conf", Run: runConf})
@@ -62,22 +63,51 @@ local again = FIN[(%d %% #FIN) + 1] setmetatable(again, fz("b")) FIN[#FIN + 1] =
 	// a finaliser that re-arms itself once from inside __gc
 	`do FIN = FIN or {} local mt mt = {__gc = function(o) o.n = o.n + 1 emit("fin", "rearm", o.id, o.n) if o.n < 2 + %d %% 2 then setmetatable(o, mt) end end}
 FIN[#FIN + 1] = setmetatable({id = %d %% 7, n = 0}, mt) emit("ps12", #FIN) end`,
+	// finalisers delivered in the middle of the run (at collect(), by the simulated collector) that look
+	// at the main thread's stack: what the main thread "is running" must not be a continuation that has
+	// already gone back to its pool
+	`do local MAIN = coroutine.running()
+local mt = {__gc = function(o) emit("peek", o.id, (debug.traceback(MAIN, "tb", 0):gsub("0x%%x+", "PTR"))) end}
+local function mkg(n) for i = 1, n do setmetatable({id = i}, mt) end return n end
+local function lvl(d) if d == 0 then mkg(%d %% 3 + 1) collect() return 0 end return 1 + lvl(d - 1) end
+emit("ps13", lvl(%d %% 5)) end`,
+	// two userdata made by the host around Go values that may be equal (small integers: handles), each with
+	// its own finaliser, still referenced when the runtime is closed: every one of them is finalised
+	`do FIN = FIN or {} local a, b = mkv(%d %% 2, function() emit("fin", "va") end), mkv(%d %% 2, function() emit("fin", "vb") end)
+FIN[#FIN + 1] = a FIN[#FIN + 1] = b emit("ps14", a == b) end`,
 	// string building through pooled continuations
 	`local parts = {} for i = 1, %d %% 30 + 1 do parts[#parts + 1] = tostring(i):rep(2) end emit("ps8", table.concat(parts, "-"), %d)`,
+}
+
+// mode "snap" (open finding, DESIGN 13.2): values still referenced when the runtime is closed whose
+// metatable changed after they were marked, or whose finaliser compares its argument with the value
+// the program holds.  The default finaliser pool hands a copy made at marking time to __gc; the other
+// pool hands over the value itself.  Programs of this mode contain nothing else.
+var snapStress = []string{
+	`SNAP = SNAP or {} do local x = setmetatable({id = %d}, {__gc = function(o) emit("fin", "removed-metatable", o.id) end}) setmetatable(x, nil) SNAP[#SNAP + 1] = x emit("sn1", %d) end`,
+	`SNAP = SNAP or {} do local y = setmetatable({id = %d}, {__gc = function(o) emit("fin", "replaced-metatable", o.id) end}) local mt2 = {} setmetatable(y, mt2) mt2.__gc = function(o) emit("fin", "current-metatable", o.id) end SNAP[#SNAP + 1] = y emit("sn2", %d) end`,
+	`SNAP = SNAP or {} do local MT = {} local z = setmetatable({id = %d}, {__gc = function(o) emit("fin", "metatable-is-current", o.id, getmetatable(o) == MT) end}) setmetatable(z, MT) SNAP[#SNAP + 1] = z emit("sn3", %d) end`,
+	`SNAP = SNAP or {} do local reg = {} local w w = setmetatable({id = %d}, {__gc = function(o) emit("fin", "identity", o.id, o == w, rawequal(o, w), reg[o]) end}) reg[w] = "per-object" SNAP[#SNAP + 1] = w emit("sn4", %d) end`,
 }
 
 func runConf(ctx *core.RunCtx) {
 	g := ctx.Gen
 	nort := strings.HasPrefix(ctx.Mode, "nort")
+	snap := strings.HasPrefix(ctx.Mode, "snap")
 	opts := richOpts{NoGC: true, AllowYield: true, NoYieldInProtected: true, NoRuntime: nort, NoCtx: nort || g.Chance(1, 2)}
 	src, feat := genRich(g, opts)
 	// splice pool-stress templates in front of the final emit
 	extra := ""
-	for i, n := 0, g.Choose(4); i < n; i++ {
+	for i, n := 0, g.Choose(4); i < n && !snap; i++ {
 		t := poolStress[g.Choose(len(poolStress))]
 		a, b := 1+g.Choose(180), 1+g.Choose(180)
 		extra += fmt.Sprintf(t, a, b) + "\n"
 		ctx.Count("pool-stress templates", 1)
+	}
+	for i, n := 0, 1+g.Choose(3); i < n && snap; i++ {
+		t := snapStress[g.Choose(len(snapStress))]
+		extra += fmt.Sprintf(t, 1+g.Choose(180), 1+g.Choose(180)) + "\n"
+		ctx.Count("finaliser-snapshot templates", 1)
 	}
 	src = strings.Replace(src, `emit("done", acc)`, extra+`emit("done", acc)`, 1)
 	ctx.Sample = src
@@ -90,11 +120,28 @@ func runConf(ctx *core.RunCtx) {
 		ropts = append(ropts, rt.WithRegSetMaxAge(uint([]int{0, 1, 10, 1000}[g.Choose(4)])))
 		ctx.Count("fault.knob WithRegSetMaxAge", 1)
 	}
+	var col *collector
+	if strings.Contains(extra, "collect()") {
+		// the Go finalizers of this run are delivered by the harness, all of them at collect()
+		col = &collector{}
+		rt.VerifSetFinalizerFunc(col.setFinalizer)
+		defer rt.VerifSetFinalizerFunc(nil)
+	}
 	s := core.NewSched(ctx.Sch, 3000000)
 	log := core.GetLog()
 	defer core.PutLog(log)
 	s.Begin()
 	h := harness.NewHost(s, log, ropts...)
+	if col != nil {
+		h.Def("collect", func(t *rt.Thread, c *rt.GoCont) (rt.Cont, error) {
+			col.barrier()
+			for col.pending() > 0 {
+				col.deliver(0)
+				ctx.Count("fault.gc-deliver (finaliser made pending at collect())", 1)
+			}
+			return c.Next(), nil
+		}, 0, false)
+	}
 	h.Def("reenter", func(t *rt.Thread, c *rt.GoCont) (rt.Cont, error) {
 		// a host function calling back into Lua
 		term := rt.NewTerminationWith(c, 0, true)
@@ -103,6 +150,13 @@ func runConf(ctx *core.RunCtx) {
 		}
 		return c.PushingNext(t.Runtime, term.Etc()...), nil
 	}, 1, true)
+	h.Def("mkv", func(t *rt.Thread, c *rt.GoCont) (rt.Cont, error) {
+		// a userdata around a Go value that is not a pointer
+		k, _ := c.Arg(0).TryInt()
+		meta := rt.NewTable()
+		t.SetTable(meta, rt.StringValue("__gc"), c.Arg(1))
+		return c.PushingNext1(t.Runtime, t.NewUserDataValue(k, meta)), nil
+	}, 2, false)
 	var out harness.Outcome
 	status := ""
 	if limit > 0 {
